@@ -193,6 +193,35 @@ theorem C10_spin_only_above_tip (w : World) (sf mf : Nat) (init : List Req) :
   intro r hs
   exact mgr_spin w sf mf _ hs
 
+/-- The exclusion for the spin as an explicit hypothesis: when every start height is at or below every tip the
+scanner is shown, the manager never spins; so (fuel aside) it ends idle or stopped and `C10_all_answered_partial`
+applies. -/
+theorem C10_no_spin_partial (w : World) (sf mf : Nat) (init : List Req)
+    (hb : ∀ k, ∀ q ∈ init ++ arrived w k, ∀ j, q.birth ≤ w.tip j) :
+    (run w sf mf init).1 ≠ .spin := by
+  intro hs
+  obtain ⟨hne, hall⟩ := C10_spin_only_above_tip w sf mf init hs
+  have hp := (run_cons w sf mf init).perm
+  cases hpq : (run w sf mf init).2.pq with
+  | nil => exact hne hpq
+  | cons q rest =>
+    have hq : q ∈ (run w sf mf init).2.pq := by rw [hpq]; exact List.mem_cons_self
+    have hh : q ∈ holds (run w sf mf init).2 := by
+      unfold holds
+      exact List.mem_append_left _ (List.mem_append_left _ (List.mem_append_left _ (List.mem_append_left _ hq)))
+    have hin := hp.subset hh
+    have h1 := hb _ q hin (run w sf mf init).2.k
+    have h2 := hall q hq
+    omega
+
+example : (∀ k, ∀ q ∈ exInit ++ arrived exW k, ∀ j, q.birth ≤ exW.tip j) := by
+  intro k q hq j
+  rw [exW_arrived] at hq
+  show q.birth ≤ 3
+  split at hq
+  · exact (by decide : ∀ q ∈ exInit ++ [(⟨4, ⟨1, 1⟩, 0⟩ : Req)], q.birth ≤ 3) q hq
+  · exact (by decide : ∀ q ∈ exInit ++ ([] : List Req), q.birth ≤ 3) q hq
+
 /-- What the model takes from the Go source, re-extracted from the repo's working tree on every run:
 `ProcessBlock` adds the new requests and looks for their initial outputs before it looks for spends (`joinReq`
 before `notifySpends`); `dequeueAtHeight` defers with `<` and takes with `==` (the partition in `stepH`);
